@@ -610,6 +610,14 @@ func (m *model) checkC04(res *result, p *parsed, rep *reporter) (info c04info) {
 			rep.report("C04/truncator-range", "", "call %d: truncator reports runes {%d,%d}, the cut range is {%d,%d}", l.call, tr.Runes.Offset, tr.Runes.Count, p.keptEnd, cut)
 		}
 	}
+	// The empty paragraph: with TruncateAfterLines == 1 its only (empty) line is the last permitted
+	// one, and TextContinues documents that the truncator "should still be inserted" when the text of
+	// the paragraph fits: one line holding only the truncator, reporting runes {0,0}.
+	if m.n == 0 && k == 1 && cfg.TextContinues && m.c.Cfg.Truncator.Kind != "zero" && m.c.Cfg.Truncator.Kind != "" {
+		if len(p.lines) != 1 || p.lines[0].trunc < 0 {
+			rep.report("C04/truncator-presence", "", "empty paragraph, TruncateAfterLines=1, TextContinues: expected one line holding the truncator, got %d lines", len(p.lines))
+		}
+	}
 	if k > 0 && len(p.lines) == k && (cut > 0 || cfg.TextContinues) && m.c.Cfg.Truncator.Kind != "zero" && m.c.Cfg.Truncator.Kind != "" {
 		// ("Truncator, if provided": the zero-value truncator is recognised when present, not demanded)
 		if p.lines[k-1].trunc < 0 {
@@ -695,7 +703,7 @@ func (m *model) checkC04(res *result, p *parsed, rep *reporter) (info c04info) {
 			lastRun := &l.o.line[l.pieces[len(l.pieces)-1]]
 			// the glyph that logically ends the kept text, when it is at the paragraph-direction end of its run
 			var lastOut, lastIn *shaping.Glyph
-			if lastRun.Direction == cfg.Direction && len(lastRun.Glyphs) > 0 {
+			if sameProgression(lastRun.Direction, cfg.Direction) && len(lastRun.Glyphs) > 0 {
 				if lastRun.Direction.Progression() == di.TowardTopLeft {
 					lastOut, lastIn = &lastRun.Glyphs[0], m.endG0[e]
 				} else {
